@@ -234,12 +234,13 @@ def proof_step(prop, tier):
     for block in re.findall(r"Axioms:\n((?:.+\n?)+?)(?:\n|\Z)", out):
         for line in block.split("\n"):
             m = re.match(r"^([A-Za-z_][A-Za-z0-9_.']*)\s*:", line)
-            if m:
+            if m and m.group(1) != "Axioms":
                 axioms.append(m.group(1))
     text = strip_comments(open(pf).read())
     n_print = len(re.findall(r"Print Assumptions", text))
     allowed = set(getattr(prop, "ALLOWED_AXIOMS", []))
-    unexpected = sorted(set(a for a in axioms if a not in allowed))
+    patterns = [re.compile(x) for x in getattr(prop, "ALLOWED_AXIOM_PATTERNS", [])]
+    unexpected = sorted(set(a for a in axioms if a not in allowed and not any(x.fullmatch(a) for x in patterns)))
     info["print_assumptions"] = {"commands": n_print, "closed": closed, "axioms": sorted(set(axioms))}
     if rc != 0:
         info["messages"].append("coqc failed on %s: %s" % (prop.PROOF_FILE, out[-1500:]))
@@ -326,7 +327,8 @@ def run_property(prop, tier, seed, replay=None):
     idx = [i for i, c in enumerate(cases) if c.call is not None]
     model_error = None
     try:
-        model_answers = run_model([cases[i].call for i in idx])
+        runner = getattr(prop, "MODEL_RUNNER", run_model)
+        model_answers = runner([cases[i].call for i in idx])
     except Exception as e:  # noqa
         model_error = str(e)
         model_answers = [None] * len(idx)
